@@ -99,7 +99,8 @@ theorem extract_inv {cfg : CdsCfg γ} {c : γ} {s : CdsState γ} (heq : cfg.path
   unfold extract
   split
   · rename_i v hv; exact ⟨h, h.seq v hv⟩
-  · have hv : letters (if s.flag then (if cfg.wrapB then Ans.seqObj (cfg.pathB s.core) else Ans.str (cfg.pathB s.core))
+  · have hv : letters (if useCachedPath cfg s = true then
+          (if cfg.repaired = true then Ans.seqObj (cfg.pathB s.core) else Ans.str (cfg.pathB s.core))
         else Ans.seqObj (cfg.pathA s.core)) = some (cfg.pathA c) := by
       rw [h.core]
       split
@@ -108,12 +109,12 @@ theorem extract_inv {cfg : CdsCfg γ} {c : γ} {s : CdsState γ} (heq : cfg.path
     refine ⟨⟨h.core, ?_, h.codons⟩, hv⟩
     intro v hv'; simp only [Option.some.injEq] at hv'; rw [← hv']; exact hv
 
-/-- with path B wrapping its result (the repaired code) the memoised answer is exactly the `Sequence` -/
+/-- for the code as it is (`repaired = true`) the memoised answer is exactly the `Sequence` -/
 structure CdsInvW (cfg : CdsCfg γ) (c : γ) (s : CdsState γ) : Prop extends CdsInv cfg c s where
   seqW : ∀ v, s.seqMemo = some v → v = .seqObj (cfg.pathA c)
 
 theorem extract_invW {cfg : CdsCfg γ} {c : γ} {s : CdsState γ} (heq : cfg.pathA c = cfg.pathB c)
-    (hw : cfg.wrapB = true) (h : CdsInvW cfg c s) :
+    (hw : cfg.repaired = true) (h : CdsInvW cfg c s) :
     CdsInvW cfg c (extract cfg s).1 ∧ (extract cfg s).2 = .seqObj (cfg.pathA c) := by
   have hb := extract_inv heq h.toCdsInv
   refine ⟨⟨hb.1, ?_⟩, ?_⟩
@@ -131,7 +132,7 @@ theorem extract_invW {cfg : CdsCfg γ} {c : γ} {s : CdsState γ} (heq : cfg.pat
       split <;> simp [heq]
 
 theorem cdsStep_invW {cfg : CdsCfg γ} {c : γ} {s : CdsState γ} (heq : cfg.pathA c = cfg.pathB c)
-    (hw : cfg.wrapB = true) (h : CdsInvW cfg c s) (o : CdsOp) :
+    (hw : cfg.repaired = true) (h : CdsInvW cfg c s) (o : CdsOp) :
     CdsInvW cfg c (cdsStep cfg s o).1 ∧ (cdsStep cfg s o).2 = freshAns (cfg.pathA c) o := by
   cases o with
   | listCodons =>
@@ -161,7 +162,7 @@ theorem cdsStep_invW {cfg : CdsCfg γ} {c : γ} {s : CdsState γ} (heq : cfg.pat
     · simp only [cdsStep, validStop, freshAns]
       rw [he.2]
 
-theorem cdsRun_patched {cfg : CdsCfg γ} {c : γ} (heq : cfg.pathA c = cfg.pathB c) (hw : cfg.wrapB = true) :
+theorem cdsRun_patched {cfg : CdsCfg γ} {c : γ} (heq : cfg.pathA c = cfg.pathB c) (hw : cfg.repaired = true) :
     ∀ (hist : List CdsOp) {s : CdsState γ}, CdsInvW cfg c s →
     (cdsRun cfg s hist).2 = hist.map (freshAns (cfg.pathA c))
   | [], _, _ => rfl
